@@ -745,6 +745,38 @@ def writer_block(case, res):
                 out += vs
                 if vs:
                     break
+        # a second writer appends with the other format version (a file begun with version 4713, continued by a program that
+        # uses the default): whatever the library makes of that - it may well refuse -, no descriptor stays open while the
+        # caller still holds the writer and the exception
+        if sink == 'simpath':
+            res.sub_evals += 1
+            with store(record=False) as st:
+                nptdms = lib.nptdms
+                calls = prog['sessions'][0]
+                with nptdms.TdmsWriter(SIM_ROOT + 'o.tdms', version=4713, index_file=True) as first:
+                    for call in calls[:1]:
+                        try:
+                            first.write_segment(wgen.make_objects(nptdms, call))
+                        except Exception:
+                            pass
+                wr2 = nptdms.TdmsWriter(SIM_ROOT + 'o.tdms', mode='a', version=4712, index_file=True)
+                kept = None
+                try:
+                    with wr2:
+                        for call in calls[:1]:
+                            try:
+                                wr2.write_segment(wgen.make_objects(nptdms, call))
+                            except Exception:
+                                pass
+                except Exception as exc:
+                    kept = exc
+                res.probe('append-with-other-version')
+                vs = judge(st, res, 'with-block of a writer appending with another format version%s' % (
+                    ' (refused: %s)' % type(kept).__name__ if kept is not None else ''))
+                for v in vs:
+                    v.sig.update(phase='writer', kind=sink)
+                out += vs
+                del wr2, kept
     return out
 
 
